@@ -19,7 +19,7 @@ func init() {
 	register("C08",
 		"Structural necessary conditions of C08 decided from /repo's SSA: (pairing) every witness-path update is control-dependent on the `true` result of the AdjustMax* call on the paired value field (pairing table = the documented JSON v1 keys), passes the function's own object id and the object kind of the metric, and forgets the previous path before requesting the new one; (siblings) in the report's item list every item cites the path field paired with its value field; (none) with NameStyleNone the resolver hands out no path, Footnote is always empty, hash style cites the object id and full style the path description; (refcount) a parent link of a sought path is only ever set to a path on which a reference was taken on that very path (requested, i.e. its seeker count incremented or initialised to 1), so a parent cannot be dropped from the table while a child still points at it. Not decided: that a printed description resolves with git rev-parse (depends on git's revision grammar and run-time strings).",
 		[]string{"the enumeration delivers each object's id together with its size (C01.effects provenance)"},
-		ruleC08Pairing, ruleC08Siblings, ruleC08None, ruleC08ParentKind, ruleC08RootPrefix, ruleC08Refcount)
+		ruleC08Pairing, ruleC08Siblings, ruleC08None, ruleC08ParentKind, ruleC08RootPrefix, ruleC08Refcount, ruleC08RootName, ruleC08NameBeforeFinalize, ruleC08TagReferent)
 }
 
 // ---------------- C07 ----------------
@@ -378,11 +378,20 @@ func ruleC07Symbols(c *Ctx) {
 		return
 	}
 	// symbol = Sprintf("refgroup.%s", rg.Symbol)
-	sp, ok := c.resolve(groupItem.Call.Args[0]).(*ssa.Call)
 	okSym := false
-	if ok && calleeQ(&sp.Call) == "fmt.Sprintf" {
-		if f, ok := constStr(sp.Call.Args[0]); ok && f == "refgroup.%s" {
-			okSym = true
+	switch sp := c.resolve(groupItem.Call.Args[0]).(type) {
+	case *ssa.Call:
+		if calleeQ(&sp.Call) == "fmt.Sprintf" {
+			if f, ok := constStr(sp.Call.Args[0]); ok && f == "refgroup.%s" {
+				okSym = true
+			}
+		}
+	case *ssa.BinOp:
+		// "refgroup." + symbol
+		if sp.Op == token.ADD {
+			if f, ok := constStr(sp.X); ok && f == "refgroup." {
+				okSym = true
+			}
 		}
 	}
 	if okSym {
@@ -768,6 +777,52 @@ func ruleC07Subgroups(c *Ctx) {
 			return 0
 		}, false)
 		rc, ra := ecCall.perIteration(l), ecApp.perIteration(l)
+		if ra.Min == 0 && ra.Max == 1 {
+			// `if len(ss) > 0 { symbols = append(symbols, ss...) }`: skipping the append of an
+			// empty result changes nothing
+			onlyEmptyGuard := true
+			found := false
+			for b := range l.Blocks {
+				for _, in := range b.Instrs {
+					call, ok := in.(*ssa.Call)
+					if !ok || !isBuiltin(&call.Call, "append") {
+						continue
+					}
+					ex, ok := call.Call.Args[1].(*ssa.Extract)
+					if !ok {
+						continue
+					}
+					if rcall, ok := ex.Tuple.(*ssa.Call); !ok || rcall.Call.StaticCallee() != collector {
+						continue
+					}
+					found = true
+					for _, fct := range factsAt(b) {
+						if !l.Blocks[fct.If.Block()] || fct.If.Block() == l.Head {
+							continue
+						}
+						cond, truth := normCond(fct.Cond, fct.Truth)
+						cmp, isCmp2 := cond.(*ssa.BinOp)
+						okGuard := false
+						if isCmp2 {
+							if lc, isLen := cmp.X.(*ssa.Call); isLen && isBuiltin(&lc.Call, "len") && lc.Call.Args[0] == ssa.Value(ex) {
+								if k, isK := constInt(cmp.Y); isK && k == 0 {
+									okGuard = (cmp.Op == token.GTR && truth) || (cmp.Op == token.NEQ && truth) || (cmp.Op == token.EQL && !truth) || (cmp.Op == token.LEQ && !truth)
+								}
+							}
+							if cmp.X == ssa.Value(ex) && isNilConst(cmp.Y) {
+								okGuard = (cmp.Op == token.NEQ && truth) || (cmp.Op == token.EQL && !truth)
+							}
+						}
+						if !okGuard {
+							onlyEmptyGuard = false
+						}
+					}
+				}
+			}
+			if found && onlyEmptyGuard {
+				ra = countRange{1, 1}
+			}
+		}
 		if rc.Min == 1 && rc.Max == 1 && ra.Min == 1 && ra.Max == 1 {
 			c.hold("C07.subgroups", key, posOf(l.Head.Instrs[0]), "every subgroup is consulted exactly once and its symbols are kept")
 		} else {
@@ -936,11 +991,18 @@ func ruleC08RootPrefix(c *Ctx) {
 				// the name may itself be of the form <rev>:<path> (ROOT `master:dir`): then the path simply continues
 				ct, askedCT := r.Atoms[`strings.Contains(NAME,":")`]
 				hs, askedHS := r.Atoms[`strings.HasSuffix(NAME,":")`]
+				sl, askedSL := r.Atoms[`strings.HasSuffix(NAME,"/")`]
 				switch {
 				case askedHS && hs:
 					if got != "NAME" {
 						bad = fmt.Sprintf("a %s named `<rev>:` gets the prefix %s instead of the name itself", kind, got)
 					}
+				case askedSL && sl:
+					if got != "NAME" {
+						bad = fmt.Sprintf("a %s named `<rev>:<path>/` gets the prefix %s instead of the name itself", kind, got)
+					}
+				case kind == "tree" && askedCT && ct && !askedSL:
+					bad = fmt.Sprintf("a tree named `<rev>:<path>` gets the prefix %s whether or not the name already ends in '/': ROOT `main:src/` is described as main:src//<entry>, which git does not resolve", got)
 				case askedCT && ct:
 					if got != `(NAME + "/")` {
 						bad = fmt.Sprintf("a %s named `<rev>:<path>` gets the prefix %s instead of NAME/", kind, got)
@@ -1227,5 +1289,145 @@ func ruleC07IgnoredGroup(c *Ctx) {
 		} else {
 			c.violate("C07.ignored", "group-exists:"+name, st.Pos(), name, "the Ignored group is created only under "+bad+": when no reference option is given (explicit ROOT arguments) unmatched references are tallied nowhere")
 		}
+	}
+}
+
+// ruleC08RootName: the name under which an explicit ROOT is described is the
+// argument as the user wrote it (`main:` must stay `main:`; the renderer
+// decides about separators). The constructor of the explicit root stores its
+// parameters unchanged.
+func ruleC08RootName(c *Ctx) {
+	et := c.namedType("/sizes", "ExplicitRoot")
+	if et == nil {
+		c.notDecided("C08.root-prefix", "root-name", token.NoPos, "type sizes.ExplicitRoot not found")
+		return
+	}
+	n := 0
+	for _, f := range c.ModFns {
+		if pkgOf(f) != modPath+"/sizes" || f.Parent() != nil || f.Signature.Recv() != nil || f.Signature.Results().Len() != 1 {
+			continue
+		}
+		if !types.Identical(f.Signature.Results().At(0).Type(), et) && !isPtrToNamed(f.Signature.Results().At(0).Type(), modPath+"/sizes", "ExplicitRoot") {
+			continue
+		}
+		allInstrs(f, func(in ssa.Instruction) {
+			st, ok := in.(*ssa.Store)
+			if !ok {
+				return
+			}
+			fa, ok := st.Addr.(*ssa.FieldAddr)
+			if !ok || !types.Identical(fieldOfAddr(fa).Struct, et.Underlying()) && namedOf(fieldOfAddr(fa).Struct) != et {
+				return
+			}
+			n++
+			key := "root-name:" + fnName(f) + ":" + fieldOfAddr(fa).Var.Name()
+			if _, isParam := c.resolve(st.Val).(*ssa.Parameter); isParam {
+				c.hold("C08.root-prefix", key, st.Pos(), "stored as given")
+			} else {
+				c.violate("C08.root-prefix", key, st.Pos(), fnName(f), "the explicit root's "+fieldOfAddr(fa).Var.Name()+" is not stored as given: `main:` (a tree) described as `main` resolves to the commit, not to the cited object")
+			}
+		})
+	}
+	if n == 0 {
+		c.notDecided("C08.root-prefix", "root-name", token.NoPos, "no constructor of sizes.ExplicitRoot found")
+	}
+}
+
+// ruleC08NameBeforeFinalize: while a tree's entries are processed, the path
+// resolver is told about an entry BEFORE the bookkeeping that may complete
+// (finalise) the containing trees: finalisation reports the parent's own
+// entry to the resolver, and that report only links up if the child's request
+// for its parent already exists.
+func ruleC08NameBeforeFinalize(c *Ctx) {
+	n := 0
+	for _, rs := range c.requireSites() {
+		if rs.Kind != "tree" {
+			continue
+		}
+		for _, fn := range []*ssa.Function{rs.Fn, rs.Listener} {
+			if fn == nil {
+				continue
+			}
+			var rec []ssa.Instruction
+			allInstrs(fn, func(in ssa.Instruction) {
+				if call, ok := in.(*ssa.Call); ok && call.Call.IsInvoke() && call.Call.Method.Name() == "RecordTreeEntry" {
+					rec = append(rec, call)
+				}
+			})
+			if len(rec) == 0 {
+				continue
+			}
+			for _, r := range rec {
+				n++
+				key := "name-before-finalize:" + fnName(fn)
+				bad := false
+				allInstrs(fn, func(in ssa.Instruction) {
+					if !c.isFinalizeStep(in) {
+						return
+					}
+					// a finalisation step that can execute before this report
+					if instrDominates(in, r) {
+						bad = true
+					}
+				})
+				if bad {
+					c.violate("C08.pairing", key, r.Pos(), fnName(fn), "the entry is reported to the path resolver after the step that may finalise the containing trees: the parent's own entry is then reported before this child has requested its parent, and the child is described as `???name`")
+				} else {
+					c.hold("C08.pairing", key, r.Pos(), "reported before any finalisation step of the same function")
+				}
+			}
+		}
+	}
+	if n == 0 {
+		c.notDecided("C08.pairing", "name-before-finalize", token.NoPos, "no RecordTreeEntry report found next to the tree dependency handling")
+	}
+}
+
+// ruleC08TagReferent: an object that is reachable only through an annotated
+// tag (a tag on a tree or blob; entries below a tagged tree) can be described
+// only if the resolver links the tag's referent to the tag, as it links a
+// commit's tree to the commit. Every full-name resolver's RecordTag must do
+// something with the referent it is told about, and the scanner must tell it.
+func ruleC08TagReferent(c *Ctx) {
+	n := 0
+	for _, f := range c.ModFns {
+		if f.Name() != "RecordTag" || pkgOf(f) != modPath+"/sizes" || f.Signature.Recv() == nil || f.Parent() != nil {
+			continue
+		}
+		// only the resolver that hands out descriptions (it has a table of sought paths)
+		rt := namedOf(f.Signature.Recv().Type())
+		if rt == nil {
+			continue
+		}
+		st, ok := rt.Underlying().(*types.Struct)
+		if !ok {
+			continue
+		}
+		hasTable := false
+		for i := 0; i < st.NumFields(); i++ {
+			if _, isMap := st.Field(i).Type().Underlying().(*types.Map); isMap {
+				hasTable = true
+			}
+		}
+		if !hasTable {
+			continue
+		}
+		n++
+		key := fnName(f) + ":links-referent"
+		links := false
+		allInstrs(f, func(in ssa.Instruction) {
+			switch in.(type) {
+			case *ssa.Store, *ssa.MapUpdate, *ssa.Call, *ssa.Lookup:
+				links = true
+			}
+		})
+		if links {
+			c.hold("C08.tag-referent", key, f.Pos(), "the resolver looks at the referent of a recorded tag")
+		} else {
+			c.violate("C08.tag-referent", key, f.Pos(), fnName(f), "the full-name resolver ignores tags (empty RecordTag): the referent of an annotated tag is never linked to the tag, so a blob or tree reachable only through a tag on a tree is described as `???<name>`, which does not resolve")
+		}
+	}
+	if n == 0 {
+		c.notDecided("C08.tag-referent", "resolver", token.NoPos, "no path resolver with a RecordTag method and a table of sought paths found")
 	}
 }
